@@ -428,6 +428,14 @@ def judge_consumer(world, h, relaxed):
                     continue
             if act[0] == 'timeout' and ('timeout',) in acc03 and abs(a['t'] - (t_await + grace)) <= w_us:
                 continue
+        if not ok03 and fe != 'v2' and late_possible and act[0] == 'canceled' \
+                and any(c_['t'] > dl + w_us for c_ in h.cancels.get(iid, [])):
+            # the legacy front-end's validator is still running after the deadline (known finding C05:late-validator) and the
+            # caller cancelled in that stretch: the same defect seen from the caller's side, not a new one
+            world.violate('C05', 'late-validator', comp, where,
+                          f'Interest {iid}: the validator was still running after the deadline (t={dl}us), so a cancellation at '
+                          f't={a["t"]}us ended the Interest instead of the timeout at the deadline')
+            continue
         if d_us and not late_await and (not ok03 or (act[0] == 'timeout' and abs(a['t'] - max(dl, t_await)) > w_us)):
             # does the outcome fit a lifetime that only starts when the caller awaits?
             dl2 = t_await + life_us
@@ -439,14 +447,6 @@ def judge_consumer(world, h, relaxed):
                               f't={dl}us), awaited from t={t_await}us: finished {_short(act)} at t={a["t"]}us - as if the lifetime had '
                               f'started when the caller began to await (deadline t={dl2}us)')
                 continue
-        if not ok03 and fe != 'v2' and late_possible and act[0] == 'canceled' \
-                and any(c_['t'] > dl + w_us for c_ in h.cancels.get(iid, [])):
-            # the legacy front-end's validator is still running after the deadline (known finding C05:late-validator) and the
-            # caller cancelled in that stretch: the same defect seen from the caller's side, not a new one
-            world.violate('C05', 'late-validator', comp, where,
-                          f'Interest {iid}: the validator was still running after the deadline (t={dl}us), so a cancellation at '
-                          f't={a["t"]}us ended the Interest instead of the timeout at the deadline')
-            continue
         if not ok03:
             rule = 'outcome'
             if act[0] == 'data' and not any(e[0] == 'data' for e in acc03):
